@@ -2,10 +2,15 @@
 # usage: tools/seed_matrix.sh [seed ids...]  — re-runs every stored seeded change against its own property's quick
 # check (scratch worktree, VERIF_REPO) and reports whether it is still detected. One line per seed.
 cd "$(dirname "$0")/.."
+# the matrix runs for hours: it works from a snapshot of the machinery so that edits made meanwhile do not leak in
+snap=$(mktemp -d /tmp/verif-snap-XXXXXX)
+rsync -a --exclude .git --exclude evidence --exclude out --exclude work ./ $snap/
+export VERIF_HOME=$snap
+trap 'rm -rf $snap' EXIT
 ids=${@:-$(ls seeded | grep -v README)}
 for sid in $ids; do
   pid=${sid%%-*}
-  out=$(tools/mutant.sh /verif/seeded/$sid/patch.diff $pid 2>&1)
+  out=$($snap/tools/mutant.sh $snap/seeded/$sid/patch.diff $pid 2>&1)
   suite=$(echo "$out" | grep -m1 '^suite:')
   line=$(echo "$out" | grep -m1 "^== $pid")
   case "$line" in
